@@ -21,7 +21,7 @@ RULE = ("lattice start in {0,1,.5,.1,.3,2.25,10,100.7,64.1,250.7,2020.3,.05,-1,-
         "that is not exactly representable (i.e. naive float accumulation differs from the decimal grid).")
 ASSUMPTIONS = ["stop is on the grid by construction", "labels are compared as floats (==) and, for JSON, as the repr of the decimal grid float"]
 REQUIRED = {"default_session_keys": 100, "timerange_lists": 100, "df_indexes": 100, "session_keys": 100, "routes": 1000, "normalize_calls": 1000}
-BUDGET_S = {"quick": 100, "thorough": 1500}
+BUDGET_S = {"quick": 150, "thorough": 2400}
 
 STARTS = ["0", "1", "0.5", "0.1", "0.3", "2.25", "10", "100.7", "-1", "-0.3", "-2", "0.05", "64.1", "250.7", "2020.3"]     # incl. negative starts whose grid passes through 0
 DTS = ["1", "0.5", "0.25", "0.125", "0.1", "0.2", "0.3", "0.05", "0.01"]
